@@ -8,12 +8,17 @@ from core import BaseProp, Verdict
 from proto import T
 
 RULE = ('tables without aliases whose keys have no whitespace (keys in mixed case, exception flags) x texts over those keys in '
-        'random letter case, unknown words, operators and parentheses in which no two plain words are adjacent, valid or not, strict '
+        'random letter case, unknown words (also words in which an operator word is joined to the rest by - . : +), operators and parentheses in which no two plain words are adjacent, valid or not, strict '
         'and not; Spec on the real code: parse(simple=True) and parse() have the same outcome - same tree, or same error kind, code, '
         'token and position. Correspondence: both outcomes with the model. Exhaustive: all token strings of length <= 4 (quick) / '
-        '<= 5 (thorough) over {mit, MIT, Cp, foo, and, OR, with, (, )} without adjacent plain words. non-trivial = >= 2 tokens; '
+        '<= 5 (thorough) over {mit, MIT, Cp, foo, or-later, and, OR, with, (, )} without adjacent plain words. non-trivial = >= 2 tokens; '
         'distinct by (table, text, strict)')
 ASSUMPTIONS = ['inputs outside the premise (aliases, keys with blanks, adjacent plain words) are not generated']
+
+
+# words in which an operator word is joined to the rest by a character that is legal in a key but not a letter:
+# one word, not an operator
+OPGLUED = ['or-later', 'OR-LATER', 'with:foo', 'and.more', 'and+', 'gpl-or', 'x.with', 'with-classpath', 'Or+', '-and-']
 
 
 class Prop(BaseProp):
@@ -26,7 +31,7 @@ class Prop(BaseProp):
         for _ in range(n):
             r = rng.random()
             if r < 0.5 and not prev_plain:
-                w = gen.recase(rng, rng.choice(keys)) if keys and rng.random() < 0.6 else rng.choice(gen.WORDS + gen.ODDWORDS + gen.BADWORDS[:1])
+                w = gen.recase(rng, rng.choice(keys)) if keys and rng.random() < 0.6 else rng.choice(gen.WORDS + gen.ODDWORDS + gen.BADWORDS[:1] + OPGLUED)
                 items.append(w)
                 prev_plain = True
             elif r < 0.8:
@@ -63,8 +68,8 @@ class Prop(BaseProp):
         return Verdict('ok', case, impl=b, nontrivial=len(P.words(text)) >= 2, tags=tags)
 
     def exhaustive(self, drv, index, nworkers, maxlen):
-        alpha = ['mit', 'MIT', 'Cp', 'foo', 'and', 'OR', 'with', '(', ')']
-        plain = {'mit', 'MIT', 'Cp', 'foo'}
+        alpha = ['mit', 'MIT', 'Cp', 'foo', 'or-later', 'and', 'OR', 'with', '(', ')']
+        plain = {'mit', 'MIT', 'Cp', 'foo', 'or-later'}
         table = [['mit', [], False], ['cp', [], True]]
         k = 0
         count = 0
